@@ -431,17 +431,9 @@ func nonMonotoneSteps(clusters []int, backward bool) [][2]int {
 // C05's business) do not disable the matcher. A shaping.Shape call is given to the reference as the
 // harfbuzz-level call it makes (level 0, no flags, global features).
 func upstreamNonMonotoneSignature(c *sc.Case, clusters []int, backward bool) bool {
-	h := *c
-	if c.API != sc.APIHarfbuzz {
-		if !c.InRange() {
-			return false
-		}
-		h.API = sc.APIHarfbuzz
-		h.ClusterLevel, h.Flags, h.Invisible, h.NotFound, h.GuessProps, h.UpemScale, h.Ptem = 0, 0, 0, 0, false, false, 0
-		if h.Orient == 2 {
-			h.Dir -= 2 // sideways runs are shaped horizontally
-		}
-		h.Orient = 0
+	h, ok := asHarfbuzzCall(c)
+	if !ok {
+		return false
 	}
 	if harfbuzz.ClusterLevel(h.ClusterLevel) == harfbuzz.Characters {
 		return false
@@ -784,6 +776,8 @@ func TestReplay(t *testing.T) {
 				c.Text = []rune{}
 			}
 			checkCase(t, c)
+		case scalingCheck:
+			replayScaling(t, raw)
 		default:
 			t.Fatalf("replay %s: unknown check %q", fp, check)
 		}
